@@ -133,7 +133,7 @@ class Mon:
             w = watchers(sig)
             if not w or (not os and all(H[j]["os"] for j in w)): reset_fired[sig] = False
             x["sig"] = sig; x["os"] = os; x["inc"] += 1
-            x["pending_at_restart"] = any(e["h"] == h and not e["done"] for g in exp[x["loop"]] for e in g)
+            x["pending_at_restart"] = any(e["h"] == h and not e["done"] for e in exp[x["loop"]])
             x["own_cb_restart"] = False
             return 0
         def spec_op(w, in_cb_of=None, was_os=False):
@@ -158,11 +158,11 @@ class Mon:
             if line != "raised": self.v("protocol", f"unexpected `{line}`"); return
             w = watchers(sig)
             if w and all(H[h]["os"] for h in w): reset_fired[sig] = True
-            byloop = {}
-            for h in w:
-                byloop.setdefault(H[h]["loop"], []).append(dict(h=h, sig=sig, inc=H[h]["inc"], done=False))
+            # one message per watcher into its loop's pipe; within one delivery the handler walks the
+            # watchers regular-first, then by address (= id): that is the order they are read back in
+            for h in sorted(w, key=lambda j: (H[j]["os"], j)):
+                exp[H[h]["loop"]].append(dict(h=h, sig=sig, inc=H[h]["inc"], done=False))
                 H[h]["caught"] += 1
-            for L, g in byloop.items(): exp[L].append(g)
         def check_obs(after, resync_known=True):
             l1 = next(it); l2 = next(it)
             if not l1.startswith("obs sigaction") or not l2.startswith("obs handles"):
@@ -202,40 +202,27 @@ class Mon:
                 self.v("cb-after-close", f"signal callback on closed h{h}"); return
             if x["loop"] != L:
                 self.v("wrong-loop", f"h{h} (loop {x['loop']}) called while running loop {L}")
-            # h's outstanding expectations in FIFO order: a valid one is consumed; one of an earlier
-            # incarnation on the same signum is what the known defect L10 turns into a callback; any
-            # other stale one is read from the pipe without a callback
+            # the pipe is read in FIFO order: the message behind this callback is the first outstanding one
+            # for h that is valid, or (known defect L10) of an earlier incarnation on the same signum;
+            # everything in front of it has been read without a callback
             target = None
-            for gi, g in enumerate(exp[L]):
-                for e in g:
-                    if e["h"] != h or e["done"]: continue
-                    valid = e["inc"] == x["inc"] and x["sig"] == e["sig"]
-                    if valid or (e["sig"] == x["sig"] == sig):
-                        target = (gi, e, valid); break
-                    e["done"] = True
-                if target: break
+            for e in exp[L]:
+                if e["done"] or e["h"] != h: continue
+                if e["sig"] == x["sig"] == sig:
+                    target = e; break
             if target is None:
                 if not x["sig"] or x["closing"]:
                     self.v("cb-after-stop", f"h{h} got a callback for {sig} after stop/close returned")
                 else:
                     self.v("cb-without-delivery", f"h{h} got a callback for {sig} with no delivery outstanding (watching {x['sig']})")
             else:
-                gi, e, valid = target
-                if not valid:
+                for e in exp[L]:
+                    if e is target: break
+                    if not e["done"]: passed_over(e, L)
+                if target["inc"] != x["inc"]:
                     self.v(K_L10, f"h{h} got a callback for {sig} caught before it was stopped and restarted on the same signal")
-                elif e["sig"] != sig:
-                    self.v("cb-signum", f"h{h} called with {sig}, watching {e['sig']}")
-                e["done"] = True
-                # everything in earlier groups has been read from the pipe before this message
-                for g in exp[L][:gi]:
-                    for e2 in g:
-                        if not e2["done"]:
-                            y = H[e2["h"]]
-                            if y["sig"] == e2["sig"] and y["inc"] == e2["inc"]:
-                                missed(e2, L)
-                            else:
-                                skipped_stale(e2)
-                            e2["done"] = True
+                target["done"] = True
+            x = H[h]
             x["got_cb"] = x["inc"]
             was_os = x["os"] and bool(x["sig"])
             for opw in scripts.get(ncb, []):
@@ -243,13 +230,20 @@ class Mon:
             ncb += 1
             if was_os and x["inc"] == x["got_cb"]:
                 spec_stop(h)                              # one-shot: exactly once, then stopped
-        def skipped_stale(e):
-            """a message of an earlier incarnation is read from the pipe: per the property nothing happens;
-            the known defect stops the handle if its current incarnation is one-shot"""
+            elif x["own_cb_restart"] and x["sig"] and x["os"]:
+                # per the property the new one-shot incarnation keeps watching; known defect: it is stopped
+                self.v(K_C, f"h{h} restarted one-shot on {x['sig']} inside its own callback is stopped when the callback returns")
+                spec_stop(h)
+        def passed_over(e, L):
+            """message `e` has been read from the pipe and produced no callback"""
             y = H[e["h"]]
-            if y["sig"] and y["os"] and y["inc"] != e["inc"]:
+            if y["sig"] == e["sig"] and y["inc"] == e["inc"]:
+                missed(e, L)
+            elif y["sig"] and y["os"] and y["sig"] != e["sig"]:
+                # per the property nothing happens; the known defect stops a one-shot incarnation
                 self.v(K_B, f"h{e['h']} (one-shot on {y['sig']}) is stopped by a message for {e['sig']} of an earlier incarnation")
                 spec_stop(e["h"])
+            e["done"] = True
         def missed(e, L):
             y = H[e["h"]]
             if y["os"] and y["own_cb_restart"]:
@@ -261,15 +255,8 @@ class Mon:
             else:
                 self.v("fanout-missed", f"h{e['h']} on loop {L} did not get its callback for a delivery of {e['sig']}")
         def end_of_dispatch(L):
-            for g in exp[L]:
-                for e in g:
-                    if not e["done"]:
-                        y = H[e["h"]]
-                        if y["sig"] == e["sig"] and y["inc"] == e["inc"]:
-                            missed(e, L)
-                        else:
-                            skipped_stale(e)
-                        e["done"] = True
+            for e in exp[L]:
+                if not e["done"]: passed_over(e, L)
             exp[L] = []
         def loop_alive(L):
             return any(x["loop"] == L and (x["sig"] or (x["closing"] and not x["closed"])) for x in H.values())
@@ -277,7 +264,7 @@ class Mon:
             x = H[h]
             if not x["closing"] or x["closed"]: self.v("close-cb", f"close_cb for h{h} which is not closing / already closed")
             if x["loop"] != L: self.v("wrong-loop", f"close_cb of h{h} on loop {L}")
-            if any(e["h"] == h and not e["done"] for g in exp[x["loop"]] for e in g):
+            if any(e["h"] == h and not e["done"] for e in exp[x["loop"]]):
                 self.v("close-before-dispatched", f"close_cb for h{h} while a signal caught for it is still in the pipe")
             x["closed"] = True
 
@@ -334,7 +321,7 @@ class Mon:
                 if alive:
                     for h, x in H.items():
                         if x["loop"] == L and x["closing"] and not x["closed"] and \
-                           not any(e["h"] == h and not e["done"] for g in exp[L] for e in g):
+                           not any(e["h"] == h and not e["done"] for e in exp[L]):
                             self.v("close-cb-missing", f"h{h} is closing, nothing is pending, but close_cb did not run in `{cmd}`")
                 check_obs(cmd)
                 if deferred is not None and exp_disp(deferred) != "dfl":
